@@ -1,6 +1,7 @@
 """C14 - isotopic distributions are normalised, centred on the right masses and complete."""
 import itertools
 import math
+from functools import lru_cache
 
 from hypothesis import strategies as st
 
@@ -30,6 +31,25 @@ def _norm_ok(dist, abundance, is_sum):
         return True
     v = sum(a for _m, a in dist) if is_sum else max(a for _m, a in dist)
     return abs(v - abundance) <= 1e-9 * max(1.0, abundance)
+
+
+@lru_cache(None)
+def _pruning_bias(el, n):
+    """mean shift caused by dropping every product term below 1e-8 during the n-fold self-convolution of one element's isotope
+    pattern (the documented per-element pruning), computed from the reference isotope table"""
+    rows = [(m, ab) for _a, m, ab in refchem.table()[el] if ab > 0]
+    dist = {0.0: 1.0}
+    for _ in range(int(n)):
+        nd = {}
+        for m1, a1 in dist.items():
+            for m2, a2 in rows:
+                a = a1 * a2
+                if a >= 1e-8:
+                    k = m1 + m2
+                    nd[k] = nd.get(k, 0.0) + a
+        dist = nd
+    tot = sum(dist.values())
+    return sum(m * a for m, a in dist.items()) / tot - n * refchem.atom_mass(el, False)
 
 
 def _exact(comp, neutron=False):
@@ -122,6 +142,11 @@ def check_case(case) -> Result:
         if abs(d) > tol:
             if particles and int_formula and abs(d + part_off) <= tol:
                 sig = 'C14/mean/particle-offset-ignored-for-integer-formula'
+            elif any(e in ('Se', 'Fe') for e in elements) and \
+                    abs(d - sum(_pruning_bias(e, int(round(comp[e]))) for e in elements if e in HEAVY)) <= tol + 0.02 * abs(d):
+                # every product below 1e-8 is dropped inside the per-element expansion (it cannot be switched off); for elements
+                # with many abundant isotopes most of the expansion consists of such terms and the mean drifts
+                sig = 'C14/mean/per-element-pruning-drops-abundance-of-many-isotope-elements'
             else:
                 sig = 'C14/mean/wrong'
             r.fail('abundance-weighted mean equals the average mass', sig, expected=avg, got=mean, tol=tol, **ctx)
@@ -152,6 +177,32 @@ def check_case(case) -> Result:
                     r.fail('masses for neutron offsets are formula mass + offset * neutron mass', 'C14/neutron-offset-masses', offset=k,
                            got=m, expected=fm + k * refchem.NEUTRON, **ctx)
                     break
+    # the same view with listed particles or fractional counts: the lightest peak still sits at the monoisotopic mass of the
+    # composition (particles included) and the peaks are one neutron mass apart
+    if case['compare_views'] and elements and (particles or frac) and all(e in LIGHT for e in elements):
+        import warnings
+        with warnings.catch_warnings():
+            warnings.simplefilter('ignore')
+            nm = pt.isotopic_distribution(dict(comp), use_neutron_count=True, output_masses_for_neutron_offset=True,
+                                          distribution_resolution=max(res, 3))
+            no = pt.isotopic_distribution(dict(comp), use_neutron_count=True, distribution_resolution=max(res, 3))
+        mono = refchem.comp_mass({k: v for k, v in comp.items() if v != 0}, True)
+        if nm and len(nm) == len(no):
+            d0 = nm[0][0] - mono
+            spacing_ok = all(abs((nm[i][0] - nm[0][0]) - (no[i][0] - no[0][0]) * refchem.NEUTRON) <= 1e-6 for i in range(len(nm)))
+            if abs(d0) > 1e-6 or not spacing_ok:
+                # library: formula_mass + (offset + correction) * neutron_mass, where correction = particle offset + (mass of the
+                # fractional formula - mass of the formula rounded to integers): the correction is scaled by the neutron mass
+                sig = 'C14/neutron-offset-masses/wrong'
+                if spacing_ok:
+                    fr = [(k, v) for k, v in comp.items() if k not in ('e', 'p', 'n') and v != int(v)]
+                    for choice in itertools.product(*[(math.floor(v), math.ceil(v)) for _k, v in fr]):
+                        corr = part_off + sum((v - c) * refchem.atom_mass(k, True) for (k, v), c in zip(fr, choice))
+                        if abs(d0 - (refchem.NEUTRON - 1) * corr) <= 1e-6:
+                            sig = 'C14/neutron-offset-masses/particle-and-fraction-correction-scaled-by-neutron-mass'
+                            break
+                r.fail('with masses for neutron offsets the lightest peak sits at the monoisotopic mass (particles included), peaks one neutron apart',
+                       sig, lightest=nm[0][0], expected=mono, diff=d0, **ctx)
     return r
 
 
@@ -300,11 +351,18 @@ def strategy(tier):
     @st.composite
     def strat(draw):
         els = draw(st.lists(st.sampled_from(LIGHT + LIGHT + HEAVY), min_size=1, max_size=5, unique=True))
+        if draw(st.integers(0, 40)) == 7:
+            # an element with many abundant isotopes in a count where the per-element expansion is dominated by tiny terms
+            o = draw(options())
+            o.update(max_isotopes=None, min_abundance=None, neutron=False)
+            return {'comp': [[draw(st.sampled_from(['Se', 'Se', 'Fe'])), draw(st.integers(10, 22))]] +
+                    ([[draw(st.sampled_from(LIGHT)), draw(st.integers(1, 30))]] if draw(st.booleans()) else []),
+                    'opts': o, 'compare_views': False}
         comp = []
-        heavy_budget = 8
+        heavy_budget = 60 if (sum(1 for e in els if e in HEAVY) == 1 and len(els) <= 3 and draw(st.integers(0, 2)) == 0) else 8
         for e in els:
             if e in HEAVY:
-                c = draw(st.integers(0, 6))
+                c = draw(st.one_of(st.integers(0, 6), st.integers(0, 6), st.integers(7, 22 if e in ('Se', 'Fe') else 60)))
                 c = min(c, heavy_budget)
                 heavy_budget -= c
             else:
